@@ -423,6 +423,49 @@ func c19BootFacts(e *ext) {
 		fmt.Fprintf(&e.out, "/-- number of NewReservePod calls in the adapter's handlers -/\n")
 		fmt.Fprintf(&e.out, "def rpodAdapterCalls : List (String × Nat) := [%s]\n", strings.Join(parts, ", "))
 	}
+	// the adapter's filter: IsReservationActive = node name set and phase among the listed constants;
+	// IsObjValidActiveReservation = (tombstone unwrapped) ValidateReservation and IsReservationActive
+	{
+		var phases []string
+		nodeName := false
+		if fd := e.funcDecl("pkg/util/reservation", "", "IsReservationActive"); fd != nil && fd.Body != nil {
+			ast.Inspect(fd.Body, func(n ast.Node) bool {
+				switch v := n.(type) {
+				case *ast.SelectorExpr:
+					if strings.HasPrefix(v.Sel.Name, "Reservation") && v.Sel.Name != "Reservation" {
+						if be, ok := v.X.(*ast.Ident); ok && be.Name == "schedulingv1alpha1" {
+							phases = append(phases, v.Sel.Name)
+						}
+					}
+				case *ast.CallExpr:
+					if c19CalleeName(v) == "GetReservationNodeName" {
+						nodeName = true
+					}
+				}
+				return true
+			})
+		} else {
+			e.fail("IsReservationActive not found")
+		}
+		sort.Strings(phases)
+		fmt.Fprintf(&e.out, "/-- IsReservationActive: the phases it accepts (sorted) and whether it asks for the node name -/\n")
+		fmt.Fprintf(&e.out, "def activePhases : List String := %s\ndef activeNeedsNode : Bool := %v\n", c19StrList(phases), nodeName)
+		var calls []string
+		tomb := false
+		if fd := e.funcDecl("pkg/util/reservation", "", "IsObjValidActiveReservation"); fd != nil && fd.Body != nil {
+			calls = c19CallsAmong(fd.Body, map[string]bool{"ValidateReservation": true, "IsReservationActive": true}, nil)
+			ast.Inspect(fd.Body, func(n ast.Node) bool {
+				if ta, ok := n.(*ast.TypeAssertExpr); ok && ta.Type != nil && strings.HasSuffix(c19Render(ta.Type), "DeletedFinalStateUnknown") {
+					tomb = true
+				}
+				return true
+			})
+		} else {
+			e.fail("IsObjValidActiveReservation not found")
+		}
+		fmt.Fprintf(&e.out, "/-- IsObjValidActiveReservation: calls, and whether it unwraps a tombstone -/\n")
+		fmt.Fprintf(&e.out, "def filterCalls : List String := %s\ndef filterUnwrapsTombstone : Bool := %v\n", c19StrList(calls), tomb)
+	}
 	// PreBindReservation persists on the Reservation OBJECT it is given (3rd argument of preBindObject)
 	{
 		var parts []string
